@@ -150,18 +150,19 @@ func (ex *Exec) callModular(callee *ssa.Function, cfc *FuncContract, args []Valu
 			}
 		}
 	}
+	if st.allocs != nil {
+		// the callee's allocation effect is whatever its contract says about allocs
+		st.allocs = Ite(pc, ex.vc.Fresh("allocs."+tag, SInt), st.allocs)
+	}
 	for _, d := range cfc.Of("ensures") {
-		if only != nil && !only[d.Label] {
+		mentionsAllocs := strings.Contains(d.Text, "allocs")
+		if only != nil && !only[d.Label] && !mentionsAllocs {
+			continue
+		}
+		if mentionsAllocs && st.allocs == nil {
 			continue
 		}
 		ex.vc.Assume(Implies(pc, post.evalBool(d.Text)))
-	}
-	if st.allocs != nil {
-		// callee allocation effect, if specified
-		for _, d := range cfc.Of("allocs") {
-			n := post.evalTerm(d.Text)
-			st.allocs = Ite(pc, IAdd(st.allocs, n), st.allocs)
-		}
 	}
 	return res
 }
@@ -278,28 +279,79 @@ func (ex *Exec) appendOp(instr ssa.Instruction, args []Value, pc *Term, st *Stat
 	if !ok {
 		ex.unsupported("append into %s", describeValue(st.mem[sl.Base]))
 	}
+	base := IAdd(sl.Off, sl.Len)
+	// Bytes are written as one linear chain of stores.  A store is made a no-op (it rewrites the old
+	// byte) when the path condition does not hold or the position lies beyond the appended string.
+	leaves := iteLeafLits(src, 64)
 	var arr *Term
-	if lit, isLit := litOf[src]; isLit {
+	if leaves != nil {
+		maxLen := 0
+		sameLen := true
+		for _, l := range leaves {
+			if len(l) > maxLen {
+				maxLen = len(l)
+			}
+			if len(l) != len(leaves[0]) {
+				sameLen = false
+			}
+		}
 		arr = cur.Arr
-		for i := 0; i < len(lit); i++ {
-			arr = Store(arr, IAdd(IAdd(sl.Off, sl.Len), IntLit(int64(i))), BVLit(uint64(lit[i]), 8))
+		for i := 0; i < maxLen; i++ {
+			idx := IAdd(base, IntLit(int64(i)))
+			val := strByte(src, IntLit(int64(i)))
+			g := pc
+			if !sameLen {
+				g = And(pc, ILt(IntLit(int64(i)), n))
+			}
+			if !g.IsTrue() {
+				val = Ite(g, val, Select(arr, idx, SBV8))
+			}
+			arr = Store(arr, idx, val)
 		}
 	} else if k, okc := constLenOf(src); okc {
 		arr = cur.Arr
 		for i := 0; i < k; i++ {
-			arr = Store(arr, IAdd(IAdd(sl.Off, sl.Len), IntLit(int64(i))), strByte(src, IntLit(int64(i))))
+			idx := IAdd(base, IntLit(int64(i)))
+			val := strByte(src, IntLit(int64(i)))
+			if !pc.IsTrue() {
+				val = Ite(pc, val, Select(arr, idx, SBV8))
+			}
+			arr = Store(arr, idx, val)
 		}
 	} else {
-		arr = App("arrcopy", SArrB, cur.Arr, IAdd(sl.Off, sl.Len), strArr(src), strOff(src), n)
+		arr = Ite(pc, App("arrcopy", SArrB, cur.Arr, base, strArr(src), strOff(src), strLen(src)), cur.Arr)
 	}
-	// in-place result (the reallocating case yields a slice with the same contents; its identity is
-	// not observable by the verified code, which only reads bytes and lengths)
-	st.mem[sl.Base] = &SymArrV{Arr: Ite(pc, arr, cur.Arr), Elem: cur.Elem}
+	nv := &SymArrV{Arr: arr, Elem: cur.Elem}
+	if !pc.IsTrue() {
+		nv.GGuard = pc
+		nv.GBase = cur.Arr
+		if cur.GGuard == pc && cur.GBase != nil {
+			nv.GBase = cur.GBase
+		}
+	}
+	st.mem[sl.Base] = nv
 	capT := sl.Cap
 	if !ex.top.appendMustFit {
 		capT = Ite(fits, sl.Cap, ex.vc.Fresh("growcap", SInt))
 	}
 	return &SliceV{Base: sl.Base, Off: sl.Off, Len: newLen, Cap: capT, Elem: sl.Elem}
+}
+
+// iteLeafLits returns the literal strings at the leaves of an ite tree (nil if some leaf is not a
+// literal).
+func iteLeafLits(t *Term, budget int) []string {
+	if l, ok := litOf[t]; ok {
+		return []string{l}
+	}
+	if t.Op == "ite" && budget > 0 {
+		a := iteLeafLits(t.Args[1], budget-1)
+		b := iteLeafLits(t.Args[2], budget-1)
+		if a == nil || b == nil {
+			return nil
+		}
+		return append(a, b...)
+	}
+	return nil
 }
 
 func constLenOf(s *Term) (int, bool) {
@@ -437,18 +489,31 @@ func (ex *Exec) pointDirectives(point string, blk *ssa.BasicBlock, pc *Term, st 
 		return
 	}
 	for _, d := range ex.fc.Dirs {
-		if d.Kind != "lemma" && d.Kind != "assume_def" {
+		if d.Kind != "lemma" && d.Kind != "assume_def" && d.Kind != "lemma_chain" {
 			continue
 		}
 		if !strings.HasPrefix(d.Text, point+" ") {
 			continue
 		}
+		if ex.top.usedDirs == nil {
+			ex.top.usedDirs = map[int]bool{}
+		}
+		ex.top.usedDirs[d.Line] = true
 		text := strings.TrimSpace(d.Text[len(point):])
 		li := loop
 		if li == nil && blk != nil {
 			li = ex.inLoop[blk]
 		}
 		ctx := &Ctx{ex: ex, fn: ex.fn, fc: ex.fc, st: st, old: ex.entry, params: ex.paramMap(), pc: pc, loop: li}
+		if ex.curPhi != nil {
+			ctx.extra = map[string]Value{ex.curPhi.Comment: ex.env[ex.curPhi]}
+		}
+		havocName := ""
+		if d.Kind == "lemma_chain" && strings.HasPrefix(text, "havoc ") {
+			f := strings.SplitN(text, ":", 2)
+			havocName = strings.TrimSpace(strings.TrimPrefix(f[0], "havoc "))
+			text = strings.TrimSpace(f[1])
+		}
 		t := ctx.evalBool(text)
 		if d.Kind == "assume_def" {
 			sx, _ := parseSX(text)
@@ -463,6 +528,56 @@ func (ex *Exec) pointDirectives(point string, blk *ssa.BasicBlock, pc *Term, st 
 			continue
 		}
 		ex.vc.Oblige(ex.obName("lemma", d.Label), "lemma", Implies(pc, t))
+		if d.Kind == "lemma_chain" {
+			// "havoc x : expr": cut the state of the []byte local x (fresh array and length), forget the
+			// previous link of the chain, and continue from the lemma alone
+			if havocName != "" {
+				name := havocName
+				if ex.curPhi != nil && ex.curPhi.Comment == name {
+					// a register (the phi at this point): replace its value by a fresh symbol
+					ex.env[ex.curPhi] = ex.freshValue("cut."+name, ex.curPhi.Type(), st)
+					ctx2 := &Ctx{ex: ex, fn: ex.fn, fc: ex.fc, st: st, old: ex.entry, params: ex.paramMap(), pc: pc, loop: li, extra: map[string]Value{name: ex.env[ex.curPhi]}}
+					t = ctx2.evalBool(text)
+					ex.chainLink(pc, t)
+					continue
+				}
+				v, ok := ctx.lookupName(name)
+				if !ok {
+					ex.unsupported("lemma_chain: unknown variable %s", name)
+				}
+				pv, ok := v.(*PtrV)
+				if !ok {
+					ex.unsupported("lemma_chain: %s is not an addressable local", name)
+				}
+				sl, ok := ex.load(st, pv, pc).(*SliceV)
+				if !ok {
+					ex.unsupported("lemma_chain: %s is not a slice", name)
+				}
+				old := st.mem[sl.Base].(*SymArrV)
+				st.mem[sl.Base] = &SymArrV{Arr: ex.vc.Fresh("cut."+name+".arr", old.Arr.Sort), Elem: old.Elem}
+				nl := ex.vc.Fresh("cut."+name+".len", SInt)
+				ex.store(st, pv, &SliceV{Base: sl.Base, Off: sl.Off, Len: nl, Cap: sl.Cap, Elem: sl.Elem}, pc)
+				ctx2 := &Ctx{ex: ex, fn: ex.fn, fc: ex.fc, st: st, old: ex.entry, params: ex.paramMap(), pc: pc, loop: li}
+				t = ctx2.evalBool(text)
+			}
+			ex.chainLink(pc, t)
+			continue
+		}
 		ex.vc.Assume(Implies(pc, t))
 	}
+}
+
+// chainLink assumes the next link of a lemma chain.  The previous link is superseded only when it
+// was established under the same path condition (otherwise other paths still depend on it).
+func (ex *Exec) chainLink(pc, t *Term) {
+	vc := ex.vc
+	if vc.chainIdx > 0 && vc.chainPC == pc {
+		if vc.dropped == nil {
+			vc.dropped = map[int]bool{}
+		}
+		vc.dropped[vc.chainIdx-1] = true
+	}
+	vc.Assumes = append(vc.Assumes, Implies(pc, t))
+	vc.chainIdx = len(vc.Assumes)
+	vc.chainPC = pc
 }
